@@ -173,10 +173,13 @@ private:
       const variable_t &pivot = kv.second;
       Interval res = compute_residual(cst, pivot, env);
       Interval rhs = Interval::top();
+      // whether c*rhs is exactly the residual
+      bool is_exact = false;
       if (!res.is_top()) {
         Interval ic =
             interval_traits::mk_interval<Interval>(c, get_bitwidth(pivot));
         rhs = res / ic;
+        is_exact = (rhs * ic == res);
       }
 
       if (cst.is_equality()) {
@@ -200,7 +203,12 @@ private:
       } else if (cst.is_strict_inequality()) {
         // do nothing
       } else {
-        // cst is a disequation
+        // cst is a disequation: a value of pivot can be excluded only
+        // if c times that value is exactly the residual (the integer
+        // division may have rounded, e.g., 2*x != 5 excludes nothing).
+        if (!is_exact) {
+          continue;
+        }
         Interval old_i = env.at(pivot);
         Interval new_i = interval_traits::trim_interval(old_i, rhs);
         if (new_i.is_bottom()) {
